@@ -776,12 +776,12 @@ func TestVerifC01(t *testing.T) {
 		Rule: "hand-written texts (set/change/delete/re-add chains, special values in rescaled and plain units, unit metadata, the recorded CR witness); " + rule,
 	}
 	text := kit.Class[c01TextCase]{
-		Name: "text-origin", Quick: 4000, Thorough: 300000, Gen: c01GenText,
+		Name: "text-origin", Quick: 15000, Thorough: 300000, Gen: c01GenText,
 		Check: c01CheckText, NonTrivial: c01TextNonTrivial, MinNonTrivial: 2000,
 		Rule: "1-50 lines from a line grammar (config set/delete/re-set over a 6-key pool plus fresh and exotic keys, unit lines, benchmark lines with integers, decimals, exponents, hex, 0, -0, ±Inf, NaN in rescaled and plain units, junk, blank, CRLF, rare CR-terminated values), 15% byte-mutated, read and streamed record by record into the writer; " + rule,
 	}
 	api := kit.Class[c01APICase]{
-		Name: "api-origin", Quick: 4000, Thorough: 300000, Gen: c01GenAPI,
+		Name: "api-origin", Quick: 15000, Thorough: 300000, Gen: c01GenAPI,
 		Check: c01CheckAPI, NonTrivial: c01APINonTrivial, MinNonTrivial: 2500,
 		Rule: "histories of 1-40 written results over 1-3 Result objects: fresh struct literals with file and internal keys, SetConfig(k,v), SetConfig(k,\"\"), in-place value edits, File flag flips in both directions, re-adds after deletion, measurements built raw or through benchunit.Tidy, unit-metadata records; " + rule,
 	}
